@@ -24,11 +24,52 @@ EXCEPTIONS = {
     ('unvisited-field', 'Lambda.params.defaults'): ('a lambda value is not called by being defined: defaults are evaluated when the definition runs, but the erased definition is '
                                                     'itself only erased when unreferenced; an impure default in an erased lambda definition was not demonstrable', None),
     ('unvisited-field', 'Def.sig'): ('`def.sig.is_procedural()` is tested; parameter defaults of a non-procedural definition are checked for effects by '
-                                      'SideEffectChecker::check_params, so an accepted function definition has no effectful default', None),
+                                      'SideEffectChecker::check_params, so an accepted function definition has no effectful default', lambda fx: def_sig_tested(fx)),
     ('neutral-default', 'Expr::ClassDef'): ('only `Expr::Def` chunks are ever erased (HIROptimizer::eliminate_unused_def); a class definition nested in the erased definition body '
                                             'has no effect of its own at definition time', None),
     ('neutral-default', 'Expr::PatchDef'): ('as ClassDef', None),
 }
+
+
+def value_leaves(e):
+    """the expressions a value-producing expression can evaluate to (through blocks, if/else and match arms)"""
+    e = T.peel(e)
+    k = e.get('k')
+    if k == 'Block':
+        ss = T.stmts_of(e)
+        if 'e' in e:
+            return value_leaves(e['e'])
+        return [e]
+    if k == 'If' and e.get('e') is not None:
+        return value_leaves(e['t']) + value_leaves(e['e'])
+    if k == 'Match':
+        out = []
+        for a in e['arms']:
+            out += value_leaves(a['b'])
+        return out
+    return [e]
+
+
+def impure_arm(fx, variant):
+    fn = fx.fn(EFF, 'SideEffectChecker::is_impure')
+    for m in T.walk(fn['body']):
+        if m.get('k') == 'Match':
+            for arm in m['arms']:
+                if any(v.endswith(variant) for v in T.pat_variants(arm['pat'])):
+                    return arm
+    return None
+
+
+def def_sig_tested(fx):
+    """guard of the `Def.sig` exception: every value the Def arm can produce has `<def>.sig.is_procedural()` as a disjunct"""
+    arm = impure_arm(fx, 'hir::Expr::Def')
+    if arm is None:
+        return False, 'no Def arm'
+    for leaf in value_leaves(arm['b']):
+        tests = [c for c in T.calls(leaf) if c.get('k') == 'MCall' and c['n'] == 'is_procedural' and '.sig' in T.show(c['r'])]
+        if not tests:
+            return False, 'the Def arm can answer `%s` without testing def.sig.is_procedural()' % T.show(leaf)[:60]
+    return True, ''
 
 
 def is_empty_on_referrers(e):
@@ -108,6 +149,24 @@ def run(chk):
     fn, tg, tr = VR.run_traversal(fx, EFF, 'SideEffectChecker::is_impure', 'expr', VR.lit_false)
     chk.floor('Expr variants with children', len(tg.variants_with_children('hir::Expr')), 15)
     X.apply(chk, fx, tr, EFF, 'C12-R2', EXCEPTIONS)
+    # no branch inside an arm for a variant with children answers the neutral `false`
+    need = tg.variants_with_children('hir::Expr')
+    top = [m for m in T.stmts_of(fn['body']) if T.unsemi(m).get('k') == 'Match'] or [m for m in T.walk(fn['body']) if m.get('k') == 'Match']
+    nleaf = 0
+    for arm in T.unsemi(top[0])['arms']:
+        vs = [v.split('::')[-1] for v in T.pat_variants(arm['pat']) if '::Expr::' in v]
+        if not vs or not any(v in need for v in vs):
+            continue
+        leaves = value_leaves(arm['b'])
+        if len(leaves) <= 1:
+            continue
+        for leaf in leaves:
+            nleaf += 1
+            if VR.lit_false(leaf):
+                chk.bad('C12-R2', 'SideEffectChecker::is_impure', 'neutral-branch:%s' % '|'.join(vs), 'is_impure: a branch of the %s arm answers `false` (pure) without inspecting the '
+                        'expression: whatever that branch covers is erased when unreferenced, with its effects' % '|'.join(vs), EFF, leaf.get('l') or arm['l'])
+            else:
+                chk.ok('C12-R2', ('leaf', '|'.join(vs), nleaf))
     # ---- R3
     sites = [n for n in T.walk(fn['body']) if n.get('k') == 'MCall' and n['n'] in ('is_procedure', 'is_procedural')]
     chk.floor('procedure tests in is_impure', len(sites), 1)
